@@ -50,7 +50,16 @@ XmlSeqs == UNION {[1..k -> XmlToks] : k \in 0..(IF Tier = "quick" THEN 2 ELSE 3)
 LexCases == {[fam |-> "lex", toks |-> s, nonutf8 |-> p, root |-> r, allowed |-> {"ok", "err"}] :
                 s \in XmlSeqs, p \in Positions, r \in {"svg", "svg-ns", "none"}}
 
-Cases == CASE Family = "depth" -> DepthCases [] Family = "lex" -> LexCases [] OTHER -> {}
+\* token classes of the expression / variable-reference syntax, ASCII and not,
+\* in every context that evaluates expressions
+ExprToks == {"num", "var", "var-nonascii", "var-brace", "var-brace-nonascii", "var-brace-open", "elref", "elref-nonascii",
+             "op", "minus", "lparen", "rparen", "comma", "str", "str-escape", "str-open", "func", "word", "word-nonascii",
+             "dot", "percent", "space", "dollar"}
+ExprSeqs == UNION {[1..k -> ExprToks] : k \in 1..(IF Tier = "quick" THEN 2 ELSE 3)}
+ExprContexts == {"attr-braces", "attr-plain", "if-test", "loop-while", "loop-count", "var-value", "text", "for-data", "reuse-attr"}
+ExprLexCases == {[fam |-> "exprlex", toks |-> s, ctx |-> x, allowed |-> {"ok", "err"}] : s \in ExprSeqs, x \in ExprContexts}
+
+Cases == CASE Family = "depth" -> DepthCases [] Family = "lex" -> LexCases [] Family = "exprlex" -> ExprLexCases [] OTHER -> {}
 Init == c \in Cases
 Next == UNCHANGED c
 Spec == Init /\ [][Next]_c
